@@ -414,6 +414,23 @@ func main() {
 			}
 		}
 		boolFact("ipdbUnlockedReadOnly", okRO, "methods without the lock touch neither ix.clients nor ix.dyn*")
+		// every clock reading of a locked method happens while the lock is held (after ix.Lock())
+		clockOK := true
+		for _, n := range locked {
+			fd := funcDecl("lib/server/ipdb/ipdb.go", n)
+			t := bodyText(fd)
+			i := strings.Index(t, "ix.Lock()")
+			j := strings.Index(t, "time.Now()")
+			if j >= 0 && (i < 0 || j < i) {
+				clockOK = false
+			}
+		}
+		for _, n := range unlocked {
+			if strings.Contains(bodyText(funcDecl("lib/server/ipdb/ipdb.go", n)), "time.Now()") {
+				clockOK = false
+			}
+		}
+		boolFact("ipdbClockReadUnderLock", clockOK && len(locked) > 0, "every time.Now() of the lease database is read while the lock is held")
 	}
 	// ---- server.Run: hand-off by value, buffer freshness ----
 	{
